@@ -5,6 +5,6 @@ cd /verif
 test -z "$(git -C /repo status --porcelain)" || { echo "repo not clean"; exit 2; }
 git -C /repo apply /verif/seeded/$id/patch.diff || exit 2
 for c in "$@"; do
-  VERIF_EVIDENCE_DIR=/verif/work/mut_evidence ./check $c 2>&1 | grep -E "^\[C|^VIOLATION|^KNOWN" | cut -c1-300
+  VERIF_EVIDENCE_DIR=/verif/work/mut_evidence ./check $c 2>&1 | grep -E "^\[C|^VIOLATION" | cut -c1-300
 done
 git -C /repo checkout -- .
